@@ -35,6 +35,9 @@ stack::stack (stack const &that)
 {
   for (auto const &v: that.m_values)
     m_values.push_back (v->clone ());
+#ifdef DWGREP_VERIF
+  verif_check_profile ("copy");
+#endif
 }
 
 namespace
